@@ -38,6 +38,8 @@ def run(rep, tier):
     # add_triangle / add_rect / add_polygon dispatch degenerate shapes on HasDimensions (tables shared with C01)
     from . import dims
     dims.run(rep, F, "R6.7")
+    from . import gt_tables
+    gt_tables.run(rep, F, "R6.8", select={"Line::determinant", "Rect::center", "line_euclidean_length"})
 
 
 DIMS = ["Empty", "ZeroDimensional", "OneDimensional", "TwoDimensional"]
